@@ -173,6 +173,30 @@ theorem individual_compares_as_totals (EG : Elem G) (E : Elem R) (i j : EcIndivi
     EI.gt i j = E.gt i.testResults.total j.testResults.total ∧ EI.ge i j = E.ge i.testResults.total j.testResults.total :=
   ⟨rfl, rfl, rfl, rfl, rfl, rfl⟩
 
+/-- An individual compares exactly as its results do **also when the results are incomparable**: an individual
+    whose result is a score against one whose result is an error has `partial_cmp = None`, every ordering
+    operator false, and is not `==` - whatever the genomes are and whatever `Ord` the result type might carry. -/
+theorem individual_mixed_incomparable {S E : Type} (EG : Elem G) (ES : Elem S) (EE : Elem E)
+    (cmpR : TestResult S E → TestResult S E → Ordering) (g1 g2 : G) (s : Score S) (e : Error E) :
+    let ER : Elem (TestResult S E) := ⟨cmpR, TestResult.pcmp ES EE, TestResult.eq ES EE⟩
+    let EI := EcIndividual.elem EG ER
+    let a : EcIndividual G (TestResult S E) := ⟨g1, .score s⟩
+    let b : EcIndividual G (TestResult S E) := ⟨g2, .error e⟩
+    EI.pcmp a b = none ∧ EI.pcmp b a = none ∧
+    EI.lt a b = false ∧ EI.le a b = false ∧ EI.gt a b = false ∧ EI.ge a b = false ∧
+    EI.lt b a = false ∧ EI.le b a = false ∧ EI.gt b a = false ∧ EI.ge b a = false ∧
+    EI.eq a b = false ∧ EI.eq b a = false := by
+  simp [EcIndividual.elem, TestResult.pcmp, TestResult.eq, Elem.lt, Elem.le, Elem.gt, Elem.ge, opLt, opLe, opGt, opGe]
+
+/-- … and in general: every ordering operator of an individual is that of its results, for *any* result type
+    (partial orders included) -/
+theorem individual_compares_as_results (EG : Elem G) (ER : Elem R) (i j : EcIndividual G R) :
+    let EI := EcIndividual.elem EG ER
+    EI.cmp i j = ER.cmp i.testResults j.testResults ∧ EI.pcmp i j = ER.pcmp i.testResults j.testResults ∧
+    EI.lt i j = ER.lt i.testResults j.testResults ∧ EI.le i j = ER.le i.testResults j.testResults ∧
+    EI.gt i j = ER.gt i.testResults j.testResults ∧ EI.ge i j = ER.ge i.testResults j.testResults :=
+  ⟨rfl, rfl, rfl, rfl, rfl, rfl⟩
+
 /-- The order of result collections (and of individuals) is a lawful total *preorder by total*:
     consistent `partial_cmp`, antisymmetric up to equal totals, transitive; `Equal` exactly for equal
     totals (whatever the per-case results are). -/
